@@ -101,8 +101,13 @@ def build(case):
     return nodes
 
 
+def is_bookkeeping(key):
+    """Tree bookkeeping = the mixins' own private (name-mangled) attributes, whatever they are called."""
+    return key in BOOK or key.startswith("_NodeMixin__") or key.startswith("_LightNodeMixin__")
+
+
 def public(node):
-    return [(k, v) for k, v in vars(node).items() if k not in BOOK]
+    return [(k, v) for k, v in vars(node).items() if not is_bookkeeping(k)]
 
 
 def ref_export(node, attriter, childiter, dictcls, maxlevel, depth=0):
